@@ -259,8 +259,12 @@ func genReadOnly(c *Case, r *simrt.Rand, tier string) {
 			prog = append(prog, Op{Kind: "verify"})
 		case x < 6:
 			prog = append(prog, Op{Kind: "batch", B: g.batch()})
-		case x < 8:
+		case x < 7:
 			prog = append(prog, Op{Kind: "notify", S: pick(r, []string{"", "mergeAll"})})
+		case x < 8:
+			// advanced API: Store.Persist called directly (single threaded: a
+			// read-only collection has no persister)
+			prog = append(prog, Op{Kind: "persist", N: r.Intn(3), Flag: r.Chance(0.7)})
 		default:
 			prog = append(prog, Op{Kind: "idle", N: pick(r, []int{10, 200, 2000})})
 		}
@@ -471,6 +475,19 @@ func (e *Exec) readOnlyOps(op Op) {
 				}).NotifyMerger(p.S, false)
 			case "idle":
 				simrt.Quiesce(int64(p.N), 0)
+			case "persist":
+				var higher moss.Snapshot
+				if p.Flag {
+					higher, _ = coll.Snapshot()
+				}
+				llss, perr := st.Persist(higher, moss.StorePersistOptions{CompactionConcern: moss.CompactionConcern(p.N)})
+				if perr == nil && llss != nil {
+					llss.Close()
+				}
+				if higher != nil {
+					higher.Close()
+				}
+				e.probe("ro-direct-persist")
 			}
 		}
 		coll.Close()
